@@ -62,7 +62,7 @@ PROPS = {
                 10000, 240000),
     "C11": plan("exploration",
                 "program A: all-small pipeline of 2..8 collected while answering none (kick: answer the oldest); program B: large/chunked bodies read to Ok(0), answered unread or dropped, successor must appear. distinct = (program, n, body-kind tuple, action tuple)",
-                12000, 240000, sanitizers=["thread"]),
+                12000, 240000, miri=miri(["seqreader"], 8, 96), sanitizers=["thread"]),
     "C12": plan("exploration",
                 "one case = version x Connection header value at every position of a pipeline of 1..4, followed by further requests/garbage, with server-side close, client half-close, late request on a persistent connection or half-close after request j; delivery set, responses and EOF compared with the persistence reference. distinct = (per-request version:Connection value, mode, tail, end position)",
                 10000, 240000),
